@@ -559,7 +559,7 @@ def lean_obligations(ctx, prop_module_names, extra_targets=("chaimodel",)):
 
 # ---------------------------------------------------------------- extraction step
 EXTRACTORS = [("e_arith", "Arith.lean"), ("e_lit", "Lit.lean"), ("e_stl", "Stl.lean"), ("e_file", "File.lean"), ("e_json", "Json.lean"),
-              ("e_prelude", "Prelude.lean"), ("e_env", "Env.lean"), ("e_locks", "Locks.lean"), ("e_parsegraph", "ParseGraph.lean"), ("e_raii", "Raii.lean"), ("e_catches", "Catches.lean"), ("e_flatmap", "FlatMap.lean")]
+              ("e_prelude", "Prelude.lean"), ("e_env", "Env.lean"), ("e_locks", "Locks.lean"), ("e_parsegraph", "ParseGraph.lean"), ("e_raii", "Raii.lean"), ("e_catches", "Catches.lean"), ("e_flatmap", "FlatMap.lean"), ("e_prec", "Prec.lean")]
 
 
 def refresh_all_gen():
